@@ -19,7 +19,8 @@ ID = "C18"
 LEVEL = "exploration"
 RULE = (
     "Hypothesis-generated PipeLang programs (up to 8 functions; nested keeps, kept nodes shared by several parents, the same "
-    "callee kept at two paths, keeps with run-time arguments) and load pipelines (load inside a kept function or its helper, "
+    "callee kept at two paths, keeps with run-time arguments), two planted shapes (a chain of run-time keeps followed by a helper "
+    "that reaches a chain node again; a kept function loading a path it already depends on through other kept functions) and load pipelines (load inside a kept function or its helper, "
     "producer earlier in the same or in an earlier evaluation); each is evaluated with dds_export_graph=<file>.plain "
     "(full run, analysis-only run, extra debug on/off) and without; the parsed graph must be acyclic, its node set must be "
     "exactly the kept paths of the evaluation plus the paths loaded by kept functions, its solid edges exactly the pairs "
@@ -152,6 +153,53 @@ def acyclic(nodes, edges):
     return all(visit(n) for n in list(nodes))
 
 
+# ------------------------------------------------------------------------------- planted shapes
+
+def planted(kind, a, b, c):
+    """Shapes the random generator reaches too rarely.
+    chain: a kept node, then `a` keeps with run-time arguments (each takes the previous result), then a plain helper with a
+           run-time argument that reaches node number `b` of the chain again (shared sub-node after a chain of call-order edges).
+    loadchain: a kept function v that reaches the keep of p through `a` other kept functions and then loads p itself."""
+    funcs = []
+
+    def add(name, body, data=None, params=None):
+        funcs.append({"name": name, "mod": 0, "params": params or [], "ver": 0, "pad": 0, "data": data, "body": body})
+        return len(funcs) - 1
+
+    if kind == "chain":
+        n, back, first_keep = a, b % (a + 1), c
+        if first_keep:
+            d0 = add("d0", [["ext", 0]])
+            first = ["keep", "/n0", d0, "bare", []]
+            again = ["keep", "/n0", d0, "bare", []]
+        else:
+            d0 = add("d0", [["ext", 0]], data="/n0")
+            first = again = ["call", d0, "bare", []]
+        body = [first]
+        gs = []
+        for i in range(n):
+            g = add(f"g{i}", [["ext", 1]], params=[["x", M.NO]])
+            gs.append(g)
+            body.append(["keep", f"/n{i + 1}", g, "bare", [["loc", i, "pos"]]])
+        if back == 0:
+            hb = [again]
+        else:
+            # the helper keeps node `back` again with the same run-time argument
+            hb = [["keep", f"/n{back}", gs[back - 1], "bare", [["par", "x"]]]]
+        hp = add("hp", hb, params=[["x", M.NO]])
+        body.append(["call", hp, "bare", [["loc", n if back == 0 else back - 1, "pos"]]])
+        root = add("root", body)
+    else:
+        depth, wrap, extra = a, b, c
+        prev = add("p", [["ext", 0]], data="/p")
+        for i in range(depth):
+            prev = add(f"t{i}", [["call", prev, "bare", []]] + ([["ext", 1]] if extra else []), data=f"/t{i}")
+        v = add("v", [["call", prev, "bare", []], ["load", "/p"]], data="/v")
+        root = add("root", [["call", v, "bare", []]]) if wrap else v
+    prog = {"pkg": M.PKG, "mods": ["m0"], "vars": [], "funcs": funcs, "classes": [], "ext": {"ev": 1, "ver": 0, "pad": 0}, "layout": {}}
+    return prog, root
+
+
 # ------------------------------------------------------------------------------- cases
 
 def case_strategy(opts):
@@ -159,7 +207,12 @@ def case_strategy(opts):
 
     @st.composite
     def gen(draw):
-        if draw(st.integers(0, 4)) == 0:
+        sel = draw(st.integers(0, 9))
+        if sel == 9:
+            return {"planted": ["chain", draw(st.integers(1, 4)), draw(st.integers(0, 4)), draw(st.booleans())]}
+        if sel == 8:
+            return {"planted": ["loadchain", draw(st.integers(0, 3)), draw(st.booleans()), draw(st.booleans())]}
+        if sel < 2:
             placement = draw(st.sampled_from(["kept", "kept_helper", "kept", "root"]))
             order = draw(st.sampled_from(["earlier_eval", "same_before"]))
             return {"load": [placement, order, draw(st.sampled_from(["data", "keepcall"])), draw(st.integers(0, 3)), draw(st.booleans())]}
@@ -180,6 +233,9 @@ def check_case(case, ev=None, scratch=None):
         if "load" in case:
             prog, root, p_entry, _rk = c09.build(*case["load"])
             order = case["load"][1]
+        elif "planted" in case:
+            prog, root = planted(*case["planted"])
+            order = None
         else:
             prog, root = case["prog"], case["root"]
             order = None
@@ -242,7 +298,7 @@ def check_case(case, ev=None, scratch=None):
             nested = any(v in {s["path"] for s in sites} for (_u, v) in exp_solid)
             nt = (len(sites) >= 3 and nested) or bool(exp_dashed)
             sigs = list(b["sigs"].values())
-            feats = [f"kept{min(len(sites), 6)}"] + (["nested"] if nested else []) + (["load-edge"] if exp_dashed else []) + \
+            feats = ([f"planted:{case['planted'][0]}"] if "planted" in case else []) + [f"kept{min(len(sites), 6)}"] + (["nested"] if nested else []) + (["load-edge"] if exp_dashed else []) + \
                     (["same-signature-at-two-paths"] if len(set(sigs)) < len(sigs) else []) + \
                     (["runtime-arg"] if any(not s["ctxfree"] for s in sites) else [])
             ev.case({"program": c01.slim({"prog": prog, "store": None, "steps": []})["program"], "root": root}, nt, features=feats, key=[M.pkey(prog), root])
